@@ -2,8 +2,10 @@
    ONLY theorem statements; each is closed by `exact <lemma>` from Proofs*.v.  F ranges over all real closed fields,
    every size is a universally quantified natural number. LAPACK eigh / solve_triangular / pinverse / Lanczos enter
    through their contracts (hypotheses). *)
+From Coq Require Import ZArith.
 From mathcomp Require Import all_ssreflect all_algebra.
-Require Import C06.ProofsAlg C06.ProofsKron C06.ProofsKpad.
+Require Import C16.Model C16.ProofsClosed.
+Require Import C06.Model C06.ProofsAlg C06.ProofsKron C06.ProofsKpad C06.Bridge C06.ProofsTri C06.ProofsGen C06.ProofsSelect.
 Set Implicit Arguments. Unset Strict Implicit. Unset Printing Implicit Defensive.
 Import Order.Theory GRing.Theory Num.Theory.
 Local Open Scope ring_scope.
@@ -237,3 +239,189 @@ Theorem C06_root_inv_pinverse_valid (A R Rp : 'M[F]_n) :
   R *m R^T = A -> Rp *m R = 1%:M -> A *m (Rp^T *m Rp^T^T) = 1%:M.
 Proof. by apply: root_inv_pinverse_valid. Qed.
 End Others.
+
+(* ================================================================== theorems about the executable model (Model.v) *)
+
+(* ---- method selection: total function of (cache state, size, settings); any arithmetic *)
+Section ModelSelection.
+Variables (F : Type) (ar : Arith F) (orc : oracles F) (st : settings F).
+
+Theorem C06_choose_total c n :
+  List.In (choose_root_method st c n) (MSymeig :: MDiagonalization :: MLanczos :: MCholesky :: nil).
+Proof. by apply: choose_total. Qed.
+
+Theorem C06_choose_symeig_iff c n : choose_root_method st c n = MSymeig <-> c_symeig c = true.
+Proof. by apply: choose_symeig_iff. Qed.
+
+Theorem C06_choose_diagonalization_iff c n :
+  choose_root_method st c n = MDiagonalization <-> c_symeig c = false /\ c_diagonalization c = true.
+Proof. by apply: choose_diagonalization_iff. Qed.
+
+Theorem C06_choose_cholesky_iff c n :
+  choose_root_method st c n = MCholesky <->
+  c_symeig c = false /\ c_diagonalization c = false /\ c_lanczos c = false /\
+  (Z.le (Z.of_nat n) (mcs st) \/ fast_root st = false).
+Proof. by apply: choose_cholesky_iff. Qed.
+
+Theorem C06_choose_lanczos_iff c n :
+  choose_root_method st c n = MLanczos <->
+  c_symeig c = false /\ c_diagonalization c = false /\
+  (c_lanczos c = true \/ (Z.lt (mcs st) (Z.of_nat n) /\ fast_root st = true)).
+Proof. by apply: choose_lanczos_iff. Qed.
+
+(* monotonicity in the size *)
+Theorem C06_choose_cholesky_downward c n n' :
+  (n <= n')%coq_nat -> choose_root_method st c n' = MCholesky -> choose_root_method st c n = MCholesky.
+Proof. by apply: choose_cholesky_downward. Qed.
+
+Theorem C06_choose_lanczos_upward n n' :
+  (n <= n')%coq_nat -> choose_root_method st no_cache n = MLanczos -> choose_root_method st no_cache n' = MLanczos.
+Proof. by apply: choose_lanczos_upward. Qed.
+
+Theorem C06_choose_fast_off n : fast_root st = false -> choose_root_method st no_cache n = MCholesky.
+Proof. by apply: choose_fast_off. Qed.
+
+Theorem C06_choose_diag_iff n :
+  (choose_diag_method st n = MSymeig <-> Z.le (Z.of_nat n) (mcs st)) /\
+  (choose_diag_method st n = MLanczos <-> Z.lt (mcs st) (Z.of_nat n)).
+Proof. by apply: choose_diag_iff. Qed.
+
+(* which primitive a default root_decomposition() runs on a dense-backed operator: psd_safe_cholesky up to
+   max_cholesky_size (or with fast computations off), the Lanczos function above *)
+Theorem C06_dense_root_default_cholesky n A :
+  Nat.eqb (n * n) 1 = false -> (Z.le (Z.of_nat n) (mcs st) \/ fast_root st = false) ->
+  forall L, fst (base_chol ar st n A false) = Ok L ->
+  a_root (alg ar orc st (EDense n A)) no_cache MNone = (Ok (L, n), snd (base_chol ar st n A false)).
+Proof. by apply: dense_root_default_cholesky. Qed.
+
+Theorem C06_dense_root_default_lanczos n A :
+  Nat.eqb (n * n) 1 = false -> Z.lt (mcs st) (Z.of_nat n) -> fast_root st = true ->
+  a_root (alg ar orc st (EDense n A)) no_cache MNone =
+  (Ok (fst (o_lz_root orc A (z2n (mrs st))), ncols (fst (o_lz_root orc A (z2n (mrs st))))),
+   (EvLanczos n (ncols (fst (o_lz_root orc A (z2n (mrs st))))) :: EvEigh (ncols (fst (o_lz_root orc A (z2n (mrs st))))) :: nil)).
+Proof. by apply: dense_root_default_lanczos. Qed.
+
+(* KroneckerProduct overrides: above max_cholesky_size the (inverse) root is the Kronecker product of the factors' *)
+Theorem C06_kron_root_threshold ops c m :
+  let a := alg ar orc st (EKron ops) in
+  Z.leb (Z.of_nat (a_n a)) (mcs st) = false ->
+  a_root a c m =
+  bind (mseq (List.map (fun f => bind (a_root f no_cache m) (fun '(R, k) => ret (R, a_n f, k))) (List.map (alg ar orc st) ops)))
+       (fun Rs => ret (s_dat (kron_of ar Rs), s_cols (kron_of ar Rs))).
+Proof. by apply: kron_root_threshold. Qed.
+
+Theorem C06_kron_root_inv_threshold ops c m :
+  let a := alg ar orc st (EKron ops) in
+  Z.leb (Z.of_nat (a_n a)) (mcs st) = false ->
+  a_rootinv a c m =
+  bind (mseq (List.map (fun f => bind (a_rootinv f no_cache MNone) (fun '(R, k, _) => ret (R, a_n f, k))) (List.map (alg ar orc st) ops)))
+       (fun Rs => ret (s_dat (kron_of ar Rs), s_cols (kron_of ar Rs), None)).
+Proof. by apply: kron_root_inv_threshold. Qed.
+
+Theorem C06_kron_root_inv_small_ignores_method ops c m m' :
+  let a := alg ar orc st (EKron ops) in
+  Z.leb (Z.of_nat (a_n a)) (mcs st) = true -> a_rootinv a c m = a_rootinv a c m'.
+Proof. by apply: kron_root_inv_small_ignores_method. Qed.
+
+(* TriangularLinearOperator refuses the Cholesky and Lanczos-root routes *)
+Theorem C06_triangular_raises n upper Tm :
+  let a := alg ar orc st (ETri n upper Tm) in
+  fst (pub_cholesky ar a false) = Err ENotPSD /\ fst (pub_cholesky ar a true) = Err ENotPSD /\
+  fst (a_rootL a) = Err ENotPSD /\ fst (a_rootinvL a) = Err ENotPSD.
+Proof. by apply: tri_raises. Qed.
+End ModelSelection.
+
+(* ---- the model's generic queries are correct whenever the queries they delegate to are (rcf arithmetic, all n, every method) *)
+Section ModelGeneric.
+Variable R : rcfType.
+Notation T := (carrier R).
+Notation arR := (ArRcf R).
+Notation mx := (@mx_of R).
+Notation rv := (@rv_of R).
+Variables (orc : oracles T) (st : settings T).
+
+(* LinearOperator.root_decomposition(method): R R^T = A for EVERY method, given the contracts of _cholesky / _symeig /
+   diagonalization / _svd / _root_decomposition and of pivoted_cholesky at the requested rank *)
+Theorem C06_model_root_decomposition_valid n (A : matrix T) c chol symeig diag svd rootL rsize meth :
+  (n = 1%N -> exists2 a : T, A = [:: [:: a]] & 0 <= (a : R)) ->
+  chol_ok n A chol -> symeig_ok n A symeig -> diag_ok n A diag -> svd_ok n A svd -> root_ok n A rootL ->
+  (forall k, fst rsize = Ok k -> mx n (ncols (o_pivchol orc A k)) (o_pivchol orc A k) *m
+                                 (mx n (ncols (o_pivchol orc A k)) (o_pivchol orc A k))^T = mx n n A) ->
+  root_ok n A (gen_root arR orc st n A c chol symeig diag svd rootL rsize meth).
+Proof. by apply: gen_root_ok. Qed.
+
+(* LinearOperator.root_inv_decomposition(method): A (R R^T) = I for every method *)
+Theorem C06_model_root_inv_decomposition_valid n (A : matrix T) c chol symeig diag svd rootinvL root_default meth :
+  0 < (eps_inv st : R) ->
+  (n = 1%N -> exists2 a : T, A = [:: [:: a]] & 0 < (a : R)) ->
+  chol_tri_ok n A chol ->
+  symeig_ok n A symeig -> (forall w Q, fst symeig = Ok (w, Q) -> eps_ok st n w) ->
+  diag_ok n A diag -> diag_full_ok n A diag -> (forall w Q k, fst diag = Ok (w, Q, k) -> eps_ok st k w) ->
+  svd_ok n A svd ->
+  (forall U S V, fst svd = Ok (U, S, V) -> (mx n n U)^T *m mx n n U = 1%:M /\ eps_ok st n S) ->
+  rootinv_ok n A rootinvL ->
+  root_ok n A root_default ->
+  (forall Rt k, fst root_default = Ok (Rt, k) -> k = n /\ mx n n (o_pinv orc Rt) *m mx n n Rt = 1%:M) ->
+  rootinv_ok n A (gen_root_inv arR orc st n A c chol symeig diag svd rootinvL root_default meth).
+Proof. by apply: gen_root_inv_ok. Qed.
+
+(* the base-class _svd built from _symeig *)
+Theorem C06_model_svd_valid n (A : matrix T) (m : M (list T * matrix T)) :
+  symeig_ok n A m -> svd_ok n A (bind m (fun wq => ret (svd_of_symeig arR n wq))).
+Proof. by apply: svd_of_symeig_ok. Qed.
+
+Theorem C06_model_diagonalization_valid n (A : matrix T) symeig rsize dflt meth :
+  symeig_ok n A symeig ->
+  (forall k, fst rsize = Ok k -> diag_ok n A (base_lz_diag orc n A k)) ->
+  diag_ok n A (gen_diag orc n A symeig rsize dflt meth).
+Proof. by apply: gen_diag_ok. Qed.
+
+(* solve_triangular(L, I) as executed by the model (forward substitution) inverts L — no oracle *)
+Theorem C06_model_lower_inverse_valid n (L : matrix T) :
+  is_trig_mx (mx n n L) -> (forall i : 'I_n, mx n n L i i != 0) ->
+  mx n n L *m mx n n (lower_inverse arR n L) = 1%:M.
+Proof. by apply: lower_inverse_ok. Qed.
+
+(* the list-level Kronecker product / block layouts of the model ARE the MathComp ones of the theorems above *)
+Theorem C06_model_kron_is_kron m n p q (A B : matrix T) :
+  mx (m * p) (n * q) (kron2 arR m n p q A B) = kron (major m p) (major n q) (mx m n A) (mx p q B).
+Proof. by apply: mx_of_kron2. Qed.
+
+Theorem C06_model_block_layouts k m n (bs : list (matrix T)) :
+  mx (k * m) (k * n) (blockdiag arR k m n bs) = blockd (major k m) (major k n) (fun i : 'I_k => mx m n (nth_mx bs i)) /\
+  mx (k * m) (k * n) (blockinter arR k m n bs) = blockd (minor k m) (minor k n) (fun i : 'I_k => mx m n (nth_mx bs i)).
+Proof. by split; [apply: mx_of_blockdiag | apply: mx_of_blockinter]. Qed.
+
+Theorem C06_model_matmul_is_mulmx m k n (X Y : matrix T) :
+  mx m n (mmul arR m k n X Y) = mx m k X *m mx k n Y /\ mx n m (mtr arR m n X) = (mx m n X)^T.
+Proof. by split; [apply: mx_of_mmul | apply: mx_of_mtr]. Qed.
+End ModelGeneric.
+
+(* ================================================================== the hypotheses are satisfiable (all sizes) *)
+Section Examples.
+Variables (F : rcfType) (n : nat) (w : 'rV[F]_n).
+
+(* Sections Spectral / KroneckerAddedDiag: Q = I, A = K = diag(w) *)
+Example ex_spectral_hyps : (1%:M : 'M[F]_n)^T *m 1%:M = 1%:M /\ (1%:M : 'M[F]_n) *m diag_mx w *m (1%:M)^T = diag_mx w.
+Proof. by rewrite trmx1 !mulmx1 mul1mx. Qed.
+
+(* Section Cholesky: L = I, A = I, Linv = I *)
+Example ex_cholesky_hyps : is_trig_mx (1%:M : 'M[F]_n) /\ (1%:M : 'M[F]_n) *m (1%:M)^T = 1%:M.
+Proof. by rewrite trmx1 mulmx1 scalar_mx_is_trig. Qed.
+
+(* Section KroneckerAddedDiagSym: D = I (d = 1), Q = I, K = diag(w) *)
+Example ex_kpadsym_hyps :
+  let d : 'rV[F]_n := const_mx 1 in
+  (forall j, 0 < d 0 j) /\
+  (1%:M : 'M[F]_n) *m diag_mx w *m (1%:M)^T = diag_mx (dinvsq d) *m diag_mx w *m diag_mx (dinvsq d).
+Proof.
+move=> d; split=> [j|]; first by rewrite mxE ltr01.
+have -> : diag_mx (dinvsq d) = 1%:M.
+  by rewrite -diag_mx_const; apply: diag_mx_inj_eq => j; rewrite !mxE sqrtr1 invr1.
+by rewrite trmx1 !mulmx1 !mul1mx.
+Qed.
+
+(* a real closed field exists (constructed, axiom-free): the real algebraic numbers *)
+Example ex_rcf_inhabited : rcfType.
+Proof. exact: realalg_rcf. Qed.
+End Examples.
